@@ -132,9 +132,11 @@ pub fn to_ts_ident(ident: &Ident) -> String {
 /// If the name contains special characters or if its first character
 /// is a number it will be wrapped in quotes.
 pub fn raw_name_to_ts_field(value: String) -> String {
+    // letters, ASCII digits, `_` and `$`: other numeric characters (`²`, `①`, `½`) are
+    // alphanumeric for Unicode but cannot be part of a TypeScript identifier
     let valid_chars = value
         .chars()
-        .all(|c| c.is_alphanumeric() || c == '_' || c == '$');
+        .all(|c| c.is_alphabetic() || c.is_ascii_digit() || c == '_' || c == '$');
 
     let does_not_start_with_digit = value
         .chars()
